@@ -337,6 +337,16 @@ def case_krylov_columns(T, which, fname, n, max_iters=None):
     want = K.mat(T, rows, dt)
     got = F @ K.eye_like(T, n, dt)
     T.eq(f"{which}:{fname}(A) @ I == f(A)", got.real if np.iscomplexobj(got) or (T.sym and got.dtype.kind == 'c') else got, want, dtype=False)
+    # reflected entry points: v @ F and F.T @ v are the action of f(A)^T (not of f(A), which is not symmetric for the Arnoldi operators)
+    # (left operand s2 e_0: its own Krylov space has dimension 2, so the symmetric shortcut of the Lanczos operator stays inside the registered matrices)
+    s2 = T.var("s2l", positive=True)
+    T.assume(s2 >= 1e-2)
+    yv = K.mat(T, [[s2 if i == 0 else z for i in range(n)]], dt)[0]
+    FT = F.T
+    gotl = yv @ F
+    T.eq(f"{which}:y @ {fname}(A) == y^T f(A)", gotl.real if np.iscomplexobj(gotl) or (T.sym and gotl.dtype.kind == 'c') else gotl, yv @ want, dtype=False)
+    gott = FT @ yv
+    T.eq(f"{which}:{fname}(A).T @ y == f(A)^T y", gott.real if np.iscomplexobj(gott) or (T.sym and gott.dtype.kind == 'c') else gott, want.T @ yv, dtype=False)
     sc = T.var("sc", positive=True)
     T.assume(sc >= 1e-2)
     col = K.mat(T, [[sc if i == n - 1 else z for i in range(n)]], dt)[0]
